@@ -26,9 +26,15 @@ func tierN(tier string, quick, thorough int) int {
 
 // minterGenesis wraps params into a genesis with an explicit, zeroed state.
 func minterGenesis(p minttypes.Params, genesisTime time.Time) *minttypes.GenesisState {
+	first := uint32(1)
+	for i, m := range p.Minters {
+		if m != nil && (i == 0 || m.SequenceId < first) {
+			first = m.SequenceId
+		}
+	}
 	return &minttypes.GenesisState{
 		Params: p,
-		MinterState: minttypes.MinterState{SequenceId: 1, AmountMinted: sdk.ZeroInt(), RemainderToMint: sdk.ZeroDec(),
+		MinterState: minttypes.MinterState{SequenceId: first, AmountMinted: sdk.ZeroInt(), RemainderToMint: sdk.ZeroDec(),
 			LastMintBlockTime: genesisTime, RemainderFromPreviousMinter: sdk.ZeroDec()},
 	}
 }
